@@ -470,6 +470,10 @@ func c15PerTemplate(cs *c15Case, r *Rec, removed, survived int) error {
 		p, n, _ := c15Strip(toks, t, l)
 		rm += n
 		files["/p"+name] = strings.ReplaceAll(p, `"/`, `"/p/`)
+		// "late": the same marked document, first executed with the options off
+		files["/l"+name] = strings.ReplaceAll(c15Marked(toks), `"/`, `"/l/`)
+		q, _, _ := c15Strip(toks, false, false)
+		files["/q"+name] = strings.ReplaceAll(q, `"/`, `"/q/`)
 	}
 	set := pongo2.NewSet("c15pt", newMemLoader(files))
 	marked, err := set.FromFile("/m/root.tpl")
@@ -499,6 +503,25 @@ func c15PerTemplate(cs *c15Case, r *Rec, removed, survived int) error {
 	}
 	if set.Options.TrimBlocks || set.Options.LStripBlocks {
 		return fmt.Errorf("setting a template's options changed the set's options")
+	}
+	// "You can change the options before calling the Execute method" (doc of TemplateSet.Options):
+	// also when the template has been executed before with the options off
+	if cs.Trim || cs.LStrip {
+		late, e1 := set.FromFile("/l/root.tpl")
+		off, e2 := set.FromFile("/q/root.tpl")
+		if e1 == nil && e2 == nil {
+			wantOff, e3 := off.Execute(c15Context(cs.Variant))
+			gotOff, e4 := late.Execute(c15Context(cs.Variant))
+			if e3 == nil && (e4 != nil || gotOff != wantOff) {
+				return fmt.Errorf("with all options off the marked document renders %q (err %v), hand-stripped %q\n files=%q", gotOff, e4, wantOff, files)
+			}
+			late.Options.TrimBlocks, late.Options.LStripBlocks = cs.Trim, cs.LStrip
+			gotOn, e5 := late.Execute(c15Context(cs.Variant))
+			if e5 != nil || gotOn != want {
+				return fmt.Errorf("options TrimBlocks=%v LStripBlocks=%v switched on after a first execution without them: renders %q (err %v), hand-stripped %q\n files=%q", cs.Trim, cs.LStrip, gotOn, e5, want, files)
+			}
+			r.Class("options-after-first-execution")
+		}
 	}
 	r.Class("per-template-options")
 	if rm > 0 && survived > 0 {
